@@ -70,14 +70,15 @@ fn channels<T: DeserializeOwned + Serialize + PartialEq>(
         }),
     );
     let tree = serde_json::from_slice::<Value>(data);
-    put(
-        "value",
-        guarded(|| match &tree {
-            Ok(v) => serde_json::from_value::<T>(v.clone())
-                .map_err(|e| e.to_string()),
-            Err(e) => Err(e.to_string()),
-        }),
-    );
+    // (a text from which no tree can be built - not JSON, or nested beyond what a tree may hold although a typed reader
+    // skips the deep member without recursing - cannot reach the library as a tree at all: the tree channels then do not
+    // exist for it; they are not "rejecting" channels)
+    if let Ok(v) = &tree {
+        put(
+            "value",
+            guarded(|| serde_json::from_value::<T>(v.clone()).map_err(|e| e.to_string())),
+        );
+    }
     put(
         "jreader",
         guarded(|| {
@@ -89,13 +90,12 @@ fn channels<T: DeserializeOwned + Serialize + PartialEq>(
         "jslice",
         guarded(|| Json::from_slice::<T>(data).map_err(|e| e.to_string())),
     );
-    put(
-        "jdeser",
-        guarded(|| match &tree {
-            Ok(v) => Json::deserialize::<T>(v).map_err(|e| e.to_string()),
-            Err(e) => Err(e.to_string()),
-        }),
-    );
+    if let Ok(v) = &tree {
+        put(
+            "jdeser",
+            guarded(|| Json::deserialize::<T>(v).map_err(|e| e.to_string())),
+        );
+    }
     put(
         "jpreader",
         guarded(|| {
@@ -104,6 +104,9 @@ fn channels<T: DeserializeOwned + Serialize + PartialEq>(
         }),
     );
     let mut o = json!({"ch": ch});
+    if let Err(e) = &tree {
+        o["tree_unavailable"] = json!(e.to_string());
+    }
     let all_eq = vals.windows(2).all(|w| w[0].1 == w[1].1);
     o["all_eq"] = json!(all_eq);
     o["n_ok"] = json!(vals.len());
